@@ -358,7 +358,7 @@ func c01Run(c *core.Ctx, idx int) {
 }
 
 func init() {
-	sizes := map[core.Tier]int{core.Quick: 64 + 3000, core.Thorough: 2000 + 40000}
+	sizes := map[core.Tier]int{core.Quick: 64 + 3000, core.Thorough: 2000 + 120000}
 	core.Register(&core.Prop{
 		ID:    "C01",
 		Level: "exploration",
